@@ -540,3 +540,20 @@ Proof.
 Qed.
 End RecAck.
 
+
+Lemma tpop_offset_lt off0 t t' : tpop t t' -> Tab off0 t -> ss_offset t' < ss_offset t.
+Proof.
+  intros (g & S & U & O & _) (old & new & S0 & Fo & Lo & P).
+  destruct (list_last_cases new) as [->|(ni & x & ->)].
+  - exfalso. rewrite app_nil_r in S0. rewrite S0 in S. rewrite S in Lo.
+    apply lastok_app_last in Lo. congruence.
+  - rewrite S0, app_assoc in S. apply app_last_eq in S. destruct S as [S ->].
+    destruct P as (_ & P & _). apply Forall_app in P. destruct P as [_ P]. inversion P; subst. lia.
+Qed.
+
+Lemma walk_prefix off m w l g prev :
+  c18_walk off m w prev (map fseg_of (l ++ [g])) = true -> c18_walk off m w prev (map fseg_of l) = true.
+Proof.
+  revert prev. induction l as [|x l IH]; intros prev; cbn [app map c18_walk]; [reflexivity|].
+  intro H. apply andb_prop in H. destruct H as [H1 H2]. rewrite H1. cbn [andb]. apply IH. exact H2.
+Qed.
